@@ -196,22 +196,40 @@ def Op.name : Op → String
 def atOp (op : Op) (r : Reply) : String :=
   "@" ++ op.name ++ (if r.err == "ok" then "" else ":" ++ r.err)
 
+/-- Two leases carry the same (non-empty) hostname. -/
+def dupNames (o : Obs) : Bool :=
+  !pairwiseB (fun a b => a.host != b.host) (o.leases.filter (fun l => l.host != []))
+
+/-- An unnamed dynamic lease whose generated name (`a-b-c-d`) some lease already carries. -/
+def genNameTaken (o : Obs) : Bool :=
+  o.leases.any (fun u => !u.static && u.host == [] && o.leases.any (fun l => l.host == genHost u.ip))
+
 /-- Clauses about the database file, restart and the hostname index.  For an
 ordinary operation a clause fails at the step that BREAKS it (the file, or the
 index, agreed with the table before the operation and does not afterwards); a
-restart must reproduce the table and the answers it found, with a sound index. -/
+restart must reproduce the table and the answers it found, with a sound index.
+The reason names the cause as far as the observation shows it. -/
 def specStoreWhy (o : Obs) (op : Op) (r : Reply) (o' : Obs) : Option String :=
   if op = .restart then
-    if !restartNoneLost o o' then some "restart-loses-lease"
+    if !restartNoneLost o o' then
+      some (if dupNames o then "restart-drops-duplicate-hostname"
+            else if genNameTaken o then "restart-drops-lease-generated-name-taken"
+            else "restart-loses-lease")
     else if !restartSameTable o o' then
       some (if restartNamedKept o o' then "restart-names-unnamed-lease" else "restart-changes-hostname")
-    else if !restartSameAnswers o o' then some "restart-changes-answers"
+    else if !restartSameAnswers o o' then
+      some (if !hostIndexComplete o then "restart-changes-answers@host-index-was-incomplete"
+            else "restart-changes-answers")
     else if !hostIndexSound o' then some "host-index-stale@restart"
     else if !hostIndexComplete o' then some "host-index-misses-lease@restart"
     else none
   else if diskMirror o && !diskMirror o' then some ("disk-differs-from-memory" ++ atOp op r)
   else if hostIndexSound o && !hostIndexSound o' then some ("host-index-stale" ++ atOp op r)
-  else if hostIndexComplete o && !hostIndexComplete o' then some ("host-index-misses-lease" ++ atOp op r)
+  else if hostIndexComplete o && !hostIndexComplete o' then
+    some (if (o'.leases.filter (fun l => l.host == genHost r.yi)).length ≥ 2 ∧ op.name = "request"
+          then "generated-hostname-not-unique@request"
+          else if dupNames o' then "duplicate-hostname" ++ atOp op r
+          else "host-index-misses-lease" ++ atOp op r)
   else none
 
 def specWhy (c : Conf) (o : Obs) (op : Op) (r : Reply) (o' : Obs) : Option String :=
